@@ -32,6 +32,18 @@ pub const GRID: [f32; 17] = [
     1.0e20,
 ];
 
+/// operands at which unary operations change behaviour (rounding ties and their neighbours, the 2^23/2^24 integer thresholds, domain
+/// edges of asin/acos/ln/sqrt, large trigonometric arguments): used for the unary opcodes in addition to the operand grid
+pub fn boundary_values() -> Vec<f32> {
+    let mut v = vec![];
+    for &b in &[0.49999997f32, 0.5, 0.50000006, 1.5, 2.5, 3.5, 0.99999994, 1.0000001, 4194303.5, 4194304.5, 8388607.5, 8388608.0, 8388609.0,
+                16777215.0, 16777216.0, 2147483648.0, 1.1754942e-38, 1.4e-45, 1.0e5, 1.0e10, 1.5707964, 0.7853982, 88.72284, 88.8, 103.97, 1.0e-4, 7.0] {
+        v.push(b);
+        v.push(-b);
+    }
+    v
+}
+
 /// larger grid for the thorough tier
 pub fn grid(thorough: bool) -> Vec<f32> {
     let mut v = GRID.to_vec();
